@@ -352,6 +352,10 @@ class Engine(ExprMixin, StmtMixin, CallMixin):
             if not nm.startswith('_g_'):
                 st.loc[nm] = v
             self.init_vals[nm] = v
+        if self.fdef.args.kwarg is not None and self.fdef.args.kwarg.arg not in st.loc:
+            st, v = self.new_rec(st, {}, closed=True)          # **kwds: no extra keywords
+            st.loc[self.fdef.args.kwarg.arg] = v
+            self.init_vals[self.fdef.args.kwarg.arg] = v
         # parameters without a declared sort: defaults from the signature, else opaque
         defaults = self.fdef.args.defaults
         dnames = names[len(names) - len(defaults):] if defaults else []
